@@ -12,7 +12,8 @@ RULE = ("seeded generator of fault histories run on the real NewReconnectableCli
         "same dead client, stale second locked section after another goroutine already reconnected, Close with calls parked inside the "
         "server's dial, Close twice, every failing reconnect kind: config error / factory error / TLS failure / auth rejection, eager and "
         "lazy start incl. failing eager start, stream-limit exhaustion, UDP-disabled DialError on a dead connection, concurrent bursts on "
-        "nil/dead/closed clients) plus random scripts of calls from goroutines 0-3, kills (local socket failure or server-initiated "
+        "nil/dead/closed clients, a reconnect HELD inside configFunc / ConnFactory.New / before the handshake while further callers and "
+        "Close arrive and the holds are opened in a chosen order) plus random scripts of calls from goroutines 0-3, kills (local socket failure or server-initiated "
         "disconnect), fault queues, Close at any point. Non-trivial = the history contains a second successful connect, a failing "
         "reconnect, or a Close. Distinct = distinct JSON script.")
 ASSUMPTIONS = [
@@ -77,6 +78,85 @@ def scripted(rng):
     return cs
 
 
+def hcall(g, hold, mode="ok", kind="tcp"):
+    c = call(g, mode, kind)
+    c["hold"] = list(hold)
+    return c
+
+
+def opn(g):
+    return {"op": "open", "g": g}
+
+
+CLOSE = {"op": "close"}
+STAGES = ("cfg", "new", "hs")   # inside configFunc / inside ConnFactory.New before the socket exists / after it exists (before the handshake)
+
+
+def scripted_held(rng):
+    """A call is held inside a callback of its reconnect() while other goroutines call TCP()/UDP() and Close; the holds are
+    opened in a chosen order.  reconnect.go keeps rc.m across reconnect(): everybody else has to queue up behind it."""
+    cs = []
+    # second and third caller arrive during the (slow) config evaluation of the first use
+    cs.append(H([hcall(0, ["cfg"]), call(1), call(2, kind="udp"), opn(0), {"op": "await", "g": 1}, call(3), CLOSE, call(0)]))
+    # Close arrives during the config evaluation / inside the factory / before the handshake
+    cs.append(H([hcall(0, ["cfg"]), CLOSE, opn(0), call(1)]))
+    cs.append(H([hcall(0, ["new"]), call(1), CLOSE, opn(0), call(2)]))
+    cs.append(H([call(0), kill("sock"), call(0), hcall(0, ["hs"]), CLOSE, call(1), opn(0)], lazy=False))
+    # after a loss: reconnect held twice, two more callers (one parks in the server's dial), opened one by one
+    cs.append(H([call(0), kill("srv"), call(1), hcall(0, ["cfg", "hs"]), call(1), call(2, "gate"), opn(0), opn(0),
+                 {"op": "release", "g": 2, "how": "ok"}, call(3), CLOSE], lazy=False))
+    # two callers that both ask for a hold in configFunc, opened in the reverse order
+    cs.append(H([hcall(0, ["cfg"]), hcall(1, ["cfg"]), opn(1), opn(0), call(2)]))
+    cs.append(H([hcall(1, ["cfg", "new"]), hcall(0, ["cfg", "new"]), hcall(2, ["hs"]), opn(0), opn(1), opn(2), opn(1), opn(0), call(3), CLOSE]))
+    # held reconnects that fail: the next caller in the queue reconnects on its own
+    cs.append(H([{"op": "fault", "f": ["hsauth"]}, hcall(0, ["cfg"]), call(1), opn(0), call(0)]))
+    cs.append(H([{"op": "fault", "f": ["cfgerr", "newerr"]}, hcall(0, ["cfg"]), hcall(1, ["new"]), call(2), opn(0), opn(1), call(0)]))
+    return cs
+
+
+def random_held(rng):
+    steps = []
+    lazy = rng.random() < 0.6
+    if not lazy or rng.random() < 0.4:
+        # a lost connection that has been noticed: no live client
+        steps += [call(0), kill(rng.choice(["sock", "srv"])), call(rng.randrange(NG))]
+    if rng.random() < 0.3:
+        steps.append({"op": "fault", "f": [rng.choice(["cfgerr", "newerr", "hsconn", "hsauth", "ok"]) for _ in range(rng.randint(1, 2))]})
+    gs = list(range(NG))
+    rng.shuffle(gs)
+    gs = gs[:rng.randint(2, NG)]
+    holds = {}
+    body = []
+    for i, g in enumerate(gs):
+        hs = []
+        if i == 0 or rng.random() < 0.5:
+            hs = [x for x in STAGES if rng.random() < 0.5] or [rng.choice(STAGES)]
+        holds[g] = hs
+        body.append(hcall(g, hs, mode=rng.choice(["ok", "ok", "err", "gate"]) if i else "ok", kind="udp" if rng.random() < 0.15 else "tcp"))
+    if rng.random() < 0.5:
+        body.insert(rng.randint(1, len(body)), CLOSE)
+    steps += body
+    opens = [g for g in gs for _ in holds[g]]
+    rng.shuffle(opens)
+    if rng.random() < 0.3 and opens:
+        # something else arrives between two opens
+        unused = [g for g in range(NG) if g not in gs]
+        if CLOSE not in body:
+            opens.insert(rng.randrange(len(opens)), CLOSE)
+        elif unused:
+            opens.insert(rng.randrange(len(opens)), call(unused[0], "ok"))
+    steps += [x if isinstance(x, dict) else opn(x) for x in opens]
+    for _ in range(rng.randint(0, 3)):
+        r = rng.random()
+        if r < 0.5:
+            steps.append(call(rng.randrange(NG), rng.choice(["ok", "err"])))
+        elif r < 0.75:
+            steps.append(CLOSE)
+        else:
+            steps.append(kill(rng.choice(["sock", "srv"])))
+    return H(steps, lazy=lazy, udp=rng.random() < 0.8)
+
+
 def random_hist(rng, long=False):
     steps = []
     n = rng.randint(6, 22 if long else 14)
@@ -123,6 +203,10 @@ def gen(rng, tier):
     nrand = 10 if tier == "quick" else 700
     for _ in range(nrand):
         cases.append(random_hist(rng, long=(tier != "quick")))
+    # appended after the existing stream so that the histories above stay what they were for a given seed
+    cases += scripted_held(rng)
+    for _ in range(8 if tier == "quick" else 300):
+        cases.append(random_held(rng))
     return cases
 
 
@@ -147,25 +231,12 @@ def ev_term(e):
     raise ValueError(k)
 
 
-def group_continues(grp, e):
-    """grammar of the boundary events of one reconnect(): cfg(ok) (newerr | new s (sockclose s | connected))"""
-    if not grp:
-        return False
-    first, last = grp[0], grp[-1]
-    if first["e"] != "cfg" or not first.get("ok"):
-        return False
-    if last["e"] == "cfg":
-        return e["e"] in ("new", "newerr")
-    if last["e"] == "new" and len(grp) == 2:
-        return e["e"] == "connected" or (e["e"] == "sockclose" and e.get("sid", 0) == last.get("sid", 0))
-    return False
-
-
 def obs_list(o):
-    """Returns a list of Coq terms of type obs."""
+    """The log in log order as Coq terms of type robs: boundary events of locked sections one by one, tagged with the goroutine
+    that emitted them (99 = not a calling goroutine, i.e. the caller of rc.Close()); cutting them into sections (and rejecting
+    overlapping sections) is done by corr/C16_Corr.v `group`."""
     evs = o["evs"]
-    out = []          # entries: str or ["sec", who, [events]] / ["closesec", [events]]
-    i = 0
+    out = []
     assert evs[0]["e"] == "init"
     lazy = bool(evs[0].get("ok"))
     init_evs = []
@@ -175,72 +246,45 @@ def obs_list(o):
         i += 1
     okinit = evs[i].get("r") == "ok"
     i += 1
-    out.append("OInit %s [%s] %s" % ("true" if lazy else "false", "; ".join(ev_term(e) for e in init_evs), "true" if okinit else "false"))
-    openg = {}
-    in_close = False
+    out.append("RO (OInit %s [%s] %s)" % ("true" if lazy else "false", "; ".join(ev_term(e) for e in init_evs), "true" if okinit else "false"))
     rest = evs[i:]
+    inflight = {}
     for j, e in enumerate(rest):
         k = e["e"]
         by = e.get("by", -1)
         if k in SECTION:
-            if by < 0:
-                if in_close:
-                    g = openg.get(-1)
-                    if g is None:
-                        g = ["closesec", []]
-                        openg[-1] = g
-                        out.append(g)
-                    g[1].append(e)
-                else:
-                    out.append(["sec", 99, [e]])      # nobody should be closing here: will be rejected
-                continue
-            g = openg.get(by)
-            if g is not None and group_continues(g[2], e):
-                g[2].append(e)
-            else:
-                g = ["sec", by, [e]]
-                openg[by] = g
-                out.append(g)
-            continue
-        if k == "start":
-            openg.pop(e.get("g", 0), None)
+            out.append("RE %d (%s)" % (by if by >= 0 else 99, ev_term(e)))
+        elif k == "start":
+            inflight[e.get("g", 0)] = e.get("n", 0)
             # pruning hint for the acceptor: what this call will return (checked again at its ORet)
             nxt = next((x for x in rest[j + 1:] if x["e"] == "ret" and x.get("g", 0) == e.get("g", 0)), None)
-            out.append("OStart %d %s" % (e.get("g", 0), RET[nxt["r"]] if nxt else "TOk"))
+            out.append("RO (OStart %d %s)" % (e.get("g", 0), RET[nxt["r"]] if nxt else "TOk"))
         elif k == "req":
-            out.append("OReq %d" % e.get("g", 0))
+            # logged by the server's goroutine: it can trail the return of a call whose connection was closed under it
+            # (Close racing with a request in flight); only a request seen while the call is in flight orders anything
+            if inflight.get(e.get("g", 0)) == e.get("n", 0):
+                out.append("RO (OReq %d)" % e.get("g", 0))
         elif k == "ret":
-            openg.pop(e.get("g", 0), None)
-            out.append("ORet %d %s" % (e.get("g", 0), RET[e["r"]]))
+            inflight.pop(e.get("g", 0), None)
+            out.append("RO (ORet %d %s)" % (e.get("g", 0), RET[e["r"]]))
         elif k == "kill":
-            out.append("OKill %d" % e.get("sid", 0))
+            out.append("RO (OKill %d)" % e.get("sid", 0))
         elif k == "closebegin":
-            in_close = True
-            openg.pop(-1, None)
-            out.append("OCloseBegin")
+            out.append("RO OCloseBegin")
         elif k == "closeend":
-            in_close = False
-            openg.pop(-1, None)
-            out.append("OCloseEnd")
+            out.append("RO OCloseEnd")
         elif k == "quiet":
-            out.append("OQuiet [%s]" % "; ".join(str(x) for x in e.get("o") or []))
-    terms = []
-    for x in out:
-        if isinstance(x, str):
-            terms.append(x)
-        elif x[0] == "sec":
-            terms.append("OSec %d [%s]" % (x[1], "; ".join(ev_term(e) for e in x[2])))
-        else:
-            terms.append("OCloseSec [%s]" % "; ".join(ev_term(e) for e in x[1]))
-    return terms
+            out.append("RO (OQuiet [%s])" % "; ".join(str(x) for x in e.get("o") or []))
+        # "hold" / "open" (a call parked inside a callback of its reconnect) are harness-internal
+    return out
 
 
 def to_coq(c, o):
     if c["k"] == "class":
         return "CClass"
     if not o.get("evs"):
-        return "CHist []"
-    return "CHist [" + "; ".join(obs_list(o)) + "]"
+        return "CRaw []"
+    return "CRaw [" + "; ".join(obs_list(o)) + "]"
 
 
 def features(c, o):
@@ -263,6 +307,8 @@ def features(c, o):
         f.add("streamlimit")
     if any(s.get("mode") == "gate" for s in c.get("steps", [])):
         f.add("parked")
+    if any(e["e"] == "hold" for e in evs):
+        f.add("held")
     return f
 
 
@@ -290,6 +336,8 @@ def fingerprint(c, o):
         return "socket-census"
     if "after Close" in why:
         return "close-not-final"
+    if "one connect per lost connection" in why:
+        return "connect-count"
     if "connectedFunc reported count" in why:
         return "connect-count"
     if "evaluated configFunc" in why or "never lost" in why:
